@@ -52,7 +52,7 @@ func init() {
 		Batches:     tierN(192, 2048),
 		Helpers:     []string{"holder"},
 		Chunk:       8,
-		Floors:      []string{"tick-released>=3", "lock-fully-burnt", "lock-partially-burnt", "zero-amount-lock", "tick-below-until", "zero-lock-released", "nested-locks-released-by-one-tick", "lock-with-a-negative-until"},
+		Floors:      []string{"tick-released>=3", "lock-fully-burnt", "lock-partially-burnt", "zero-amount-lock", "tick-below-until", "zero-lock-released", "nested-locks-released-by-one-tick", "lock-with-a-negative-until", "lock-onto-an-account-that-holds-funds"},
 		Run:         func(b *runner.Batch) { runBalance(b, "C09") },
 	})
 }
@@ -148,6 +148,9 @@ func runBalance(b *runner.Batch, mode string) {
 	if b.Thorough() {
 		nops = 300
 	}
+	// locks onto accounts that already hold funds are generated in every mode: they are refused since fix b47f3bd
+	// (C09 judges an accepted one by itself; C01 and C02 by their invariants)
+	e.relock = true
 	if mode == "C09" {
 		nops = 80
 		if b.Thorough() {
